@@ -17,9 +17,11 @@ Rec == ndJsonDeserialize(IOEnv.TRACE)
 VARIABLES l, rej
 
 (* masks arrive as the full record of flags or as a base with flipped flags; declines as lists of ordinals *)
-MaskOf(m) ==
+MaskOf1(m) ==
     IF "base" \in DOMAIN m THEN MaskFlip(m.base = "all", {<<m.flip[i][1], m.flip[i][2]>> : i \in DOMAIN m.flip})
     ELSE [lvl \in Levels |-> [f \in Flags[lvl] |-> m[lvl][f]]]
+(* `alt`: the mask the visitors of the members with an even ordinal report *)
+MaskOf(m) == IF "alt" \in DOMAIN m THEN WithAlt(MaskOf1(m), MaskOf1(m.alt)) ELSE MaskOf1(m)
 DeclOf(d) == [classes |-> SeqSet(d.classes), fields |-> SeqSet(d.fields), methods |-> SeqSet(d.methods),
               codes |-> SeqSet(d.codes), rcs |-> SeqSet(d.rcs)]
 ConsumerOf(r) == IF "consumer" \in DOMAIN r THEN r.consumer ELSE "rec"
